@@ -774,3 +774,287 @@ Proof.
       destruct (lw_opt_expr4_fits loc be version d Hv ltac:(lia)) as [xx ->]. cbn [bind]. rewrite IH. reflexivity.
     + discriminate.
 Qed.
+
+Lemma lw_tombstone_pos asz : size_ok asz -> (tombstone asz <=? 0) = false.
+Proof. intros [-> | [-> | [-> | ->]]]; vm_compute; reflexivity. Qed.
+
+(* R4: for a list the pair format accepts, reading the pairs relative to the base means the same as the list.
+   hb = false (no base address in force) implies that the reader's base is 0: address pairs are absolute. *)
+Lemma lw_resolve_pairs loc asz : size_ok asz -> forall l hb base ps es,
+  rejected hb l = None -> (hb = false -> base = 0) ->
+  pairs_of l = Some ps -> ents_of l = Some es -> Forall (pair_ok loc asz) ps ->
+  resolve asz base ps = resolve asz base es.
+Proof.
+  intros Hs. pose proof (lw_tombstone_pos _ Hs) as Ht. pose proof (lw_amod_le_64 _ Hs) as H64.
+  induction l as [|x r IH]; intros hb base ps es Hrej Hb Hp He Hok; cbn [pairs_of ents_of rejected] in *.
+  - inversion Hp; inversion He; subst. reflexivity.
+  - destruct (pair_of x) as [p|] eqn:Ep; [|discriminate].
+    destruct (pairs_of r) as [ps'|] eqn:Epr; [|discriminate].
+    destruct (ent_of x) as [en|] eqn:Ee; [|discriminate].
+    destruct (ents_of r) as [es'|] eqn:Eer; [|discriminate].
+    inversion Hp; inversion He; subst ps es. clear Hp He.
+    inversion Hok as [|? ? Hpo Hok']; subst.
+    destruct (reject_entry hb x) eqn:Ere; [discriminate|].
+    destruct x as [[a|s z]|b e d|[vb|s z] [ve|s' z'] d|[vb|s z] len d|d];
+      cbn [pair_of ent_of reject_entry is_base] in *; try discriminate;
+      inversion Ep; inversion Ee; subst p en; clear Ep Ee.
+    + (* base *) cbn [resolve]. rewrite orb_true_r in Hrej. apply (IH true); try assumption; try reflexivity. discriminate.
+    + (* offset pair *) cbn [resolve]. rewrite orb_false_r in Hrej.
+      rewrite (IH hb base ps' es') by (try assumption; reflexivity). reflexivity.
+    + (* start end *)
+      destruct (addr_eqb (AConst vb) (AConst ve)); [discriminate|]. destruct hb; [discriminate|].
+      rewrite (Hb eq_refl) in *. cbn [resolve]. rewrite Ht.
+      cbn [pair_ok] in Hpo. destruct Hpo as [Hvb [Hve _]].
+      rewrite !N.add_0_l, !N.mod_small by assumption.
+      rewrite (IH false 0 ps' es') by (try assumption; reflexivity). reflexivity.
+    + (* start length *)
+      destruct (len =? 0); [discriminate|]. destruct hb; [discriminate|].
+      rewrite (Hb eq_refl) in *. cbn [resolve]. rewrite Ht.
+      cbn [pair_ok] in Hpo. destruct Hpo as [Hvb [Hve _]].
+      rewrite !N.add_0_l, (N.mod_small vb) by assumption.
+      rewrite (IH false 0 ps' es') by (try assumption; reflexivity).
+      f_equal. f_equal.
+      unfold amod in *.
+      destruct Hs as [-> | [-> | [-> | ->]]];
+        [change (2 ^ (8 * 1)) with 256 in * | change (2 ^ (8 * 2)) with 65536 in *
+        | change (2 ^ (8 * 4)) with 4294967296 in * | change (2 ^ (8 * 8)) with 18446744073709551616 in * ];
+        change (2 ^ 64) with 18446744073709551616 in *; lia.
+Qed.
+
+(* write_read_v4 for one list *)
+Lemma lw_write_read_v4_list dbg dbg' loc be version asz hb base l bs :
+  write_list_v4 dbg loc be version asz hb l = Ok bs -> version <= 4 -> Forall (wf loc) l ->
+  ~ marker_clash asz l -> (hb = false -> base = 0) ->
+  exists ps es, pairs_of l = Some ps /\ ents_of l = Some es /\
+    (forall rest, dec4 dbg' loc be asz (bs ++ rest) = Ok (ps, rest)) /\
+    resolve asz base ps = resolve asz base es.
+Proof.
+  intros H Hv Hwf Hc Hb.
+  destruct (lw_write_v4_enc _ _ _ _ _ _ _ _ H Hv Hwf) as [Hs [ps [Hp [Hok ->]]]].
+  destruct (lw_pairs_ents _ _ Hp) as [es He].
+  pose proof (lw_nomark _ _ _ Hp Hc) as Hnm.
+  exists ps, es. split; [exact Hp|]. split; [exact He|]. split.
+  - intros rest. apply lw_dec4_enc_full; assumption.
+  - eapply lw_resolve_pairs; eauto. eapply lw_never_bytes; eauto.
+Qed.
+
+(* table level *)
+Lemma lw_write_read_v4 dbg dbg' loc be version asz hb base start tbl out offs (sec0 : list byte) :
+  write_tbl_v4 dbg loc be version asz hb start tbl = Ok (out, offs) ->
+  N.of_nat (length sec0) = start -> version <= 4 -> Forall (Forall (wf loc)) tbl ->
+  (hb = false -> base = 0) ->
+  length offs = length tbl /\
+  forall i l, nth_error tbl i = Some l -> ~ marker_clash asz l ->
+    exists o ps es rest, nth_error offs i = Some o /\ ents_of l = Some es /\
+      dec4 dbg' loc be asz (at_offset o (sec0 ++ out)) = Ok (ps, rest) /\
+      resolve asz base ps = resolve asz base es.
+Proof.
+  intros H Hs Hv Hwf Hb. rewrite lw_tbl_v4_gen in H.
+  destruct (lw_tbl_gen_nth _ _ _ _ _ sec0 H Hs) as [Hlen Hn]. split; [exact Hlen|].
+  intros i l Hl Hc. destruct (Hn i l Hl) as [o [bs [post [Ho [Hw Hat]]]]].
+  rewrite Forall_forall in Hwf. assert (Hwl : Forall (wf loc) l) by (apply Hwf; eapply nth_error_In; eauto).
+  destruct (lw_write_read_v4_list _ dbg' _ _ _ _ _ base _ _ Hw Hv Hwl Hc Hb) as [ps [es [Hp [He [Hd Hr]]]]].
+  exists o, ps, es, post. split; [exact Ho|]. split; [exact He|]. split; [|exact Hr].
+  rewrite Hat. apply Hd.
+Qed.
+
+(* ---- ambiguity ---- *)
+
+(* what holds: every emitted pair fits and no emitted non-terminator pair is (0,0) *)
+Lemma lw_ambiguity_zero dbg loc be version asz hb l bs :
+  write_list_v4 dbg loc be version asz hb l = Ok bs -> version <= 4 -> Forall (wf loc) l ->
+  exists ps, pairs_of l = Some ps /\ bs = enc_list4 loc be asz ps /\
+    Forall (fun p => match p with EPair b e _ => ~ (b = 0 /\ e = 0) | _ => True end) ps.
+Proof.
+  intros H Hv Hwf. destruct (lw_write_v4_enc _ _ _ _ _ _ _ _ H Hv Hwf) as [_ [ps [Hp [Hok Hb]]]].
+  exists ps. split; [exact Hp|]. split; [exact Hb|].
+  eapply Forall_impl; [|exact Hok]. intros p Hpo. destruct p; cbn [pair_ok] in Hpo; try exact I. tauto.
+Qed.
+
+(* what holds only outside the known class: no emitted non-base pair begins with the all-ones marker *)
+Lemma lw_ambiguity_marker dbg loc be version asz hb l bs :
+  write_list_v4 dbg loc be version asz hb l = Ok bs -> version <= 4 -> Forall (wf loc) l ->
+  ~ marker_clash asz l ->
+  exists ps, pairs_of l = Some ps /\ bs = enc_list4 loc be asz ps /\
+    Forall (fun p => match p with EPair b _ _ => b <> amod asz - 1 | _ => True end) ps.
+Proof.
+  intros H Hv Hwf Hc. destruct (lw_write_v4_enc _ _ _ _ _ _ _ _ H Hv Hwf) as [_ [ps [Hp [Hok Hb]]]].
+  exists ps. split; [exact Hp|]. split; [exact Hb|]. exact (lw_nomark _ _ _ Hp Hc).
+Qed.
+
+(* ================================================================ Part 4b: de-duplication (FnvIndexSet::insert_full) *)
+
+Lemma lw_nodup_snoc {A} (l : list A) (x : A) : NoDup l -> ~ In x l -> NoDup (l ++ [x]).
+Proof.
+  induction l as [|y r IH]; intros Hnd Hx; cbn [app].
+  - constructor; [intros []|constructor].
+  - inversion Hnd as [|? ? Hy Hr]; subst. constructor.
+    + intros Hi. apply in_app_or in Hi. destruct Hi as [Hi|[Hi|[]]]; [contradiction|]. subst. apply Hx. now left.
+    + apply IH; [exact Hr|]. intros Hi. apply Hx. now right.
+Qed.
+
+Lemma lw_forall2_length {A B} (P : A -> B -> Prop) la lb : Forall2 P la lb -> length la = length lb.
+Proof. induction 1; cbn [length]; congruence. Qed.
+
+Section Dedup.
+  Context {A : Type} (eqb : A -> A -> bool).
+  Hypothesis eqb_spec : forall x y, eqb x y = true <-> x = y.
+
+  Lemma lw_index_of_some x : forall l i, index_of eqb x l = Some i -> nth_error l i = Some x.
+  Proof.
+    induction l as [|y r IH]; intros i H; cbn [index_of] in H; [discriminate|].
+    destruct (eqb x y) eqn:E.
+    - inversion H; subst. apply eqb_spec in E. subst. reflexivity.
+    - destruct (index_of eqb x r) as [j|] eqn:Ej; [|discriminate]. inversion H; subst. cbn [nth_error]. now apply IH.
+  Qed.
+
+  Lemma lw_index_of_none x : forall l, index_of eqb x l = None -> ~ In x l.
+  Proof.
+    induction l as [|y r IH]; intros H; cbn [index_of] in H; [intros []|].
+    destruct (eqb x y) eqn:E; [discriminate|].
+    destruct (index_of eqb x r) eqn:Ej; [discriminate|].
+    intros [Hy|Hr]; [|now apply IH].
+    subst y. assert (eqb x x = true) by (apply eqb_spec; reflexivity). congruence.
+  Qed.
+
+  (* one insertion: the id points at the list, earlier ids stay valid, no duplicate is created *)
+  Lemma lw_tbl_add tbl x t i :
+    tbl_add eqb tbl x = (t, i) ->
+    nth_error t i = Some x /\ (exists suffix, t = tbl ++ suffix) /\ (NoDup tbl -> NoDup t) /\
+    (forall y, In y t -> In y tbl \/ y = x).
+  Proof.
+    unfold tbl_add. destruct (index_of eqb x tbl) as [j|] eqn:E; intros H; inversion H; subst.
+    - split; [now apply lw_index_of_some|]. split; [exists []; now rewrite app_nil_r|]. split; [auto|]. auto.
+    - split; [rewrite nth_error_app2, Nat.sub_diag by lia; reflexivity|].
+      split; [eauto|]. split.
+      + intros Hnd. apply lw_nodup_snoc; [exact Hnd|]. now apply lw_index_of_none.
+      + intros y Hy. apply in_app_or in Hy. destruct Hy as [Hy|[Hy|[]]]; auto.
+  Qed.
+
+  Lemma lw_tbl_add_all : forall xs tbl t ids,
+    tbl_add_all eqb tbl xs = (t, ids) -> NoDup tbl ->
+    NoDup t /\ (exists suffix, t = tbl ++ suffix) /\
+    Forall2 (fun x i => nth_error t i = Some x) xs ids /\
+    (forall y, In y t -> In y tbl \/ In y xs).
+  Proof.
+    induction xs as [|x r IH]; intros tbl t ids H Hnd; cbn [tbl_add_all] in H.
+    - inversion H; subst. split; [exact Hnd|]. split; [exists []; now rewrite app_nil_r|]. split; [constructor|auto].
+    - destruct (tbl_add eqb tbl x) as [t1 i] eqn:E1. destruct (tbl_add_all eqb t1 r) as [t2 ids'] eqn:E2.
+      inversion H; subst. destruct (lw_tbl_add _ _ _ _ E1) as [Hi [[s1 Hs1] [Hn1 Hin1]]].
+      destruct (IH _ _ _ E2 (Hn1 Hnd)) as [Hn2 [[s2 Hs2] [HF Hin2]]].
+      split; [exact Hn2|]. split; [exists (s1 ++ s2); subst; now rewrite app_assoc|]. split.
+      + constructor; [|exact HF]. subst t. rewrite nth_error_app1; [exact Hi|].
+        apply nth_error_Some. congruence.
+      + intros y Hy. destruct (Hin2 y Hy) as [Hy1|Hy2]; [|right; now right].
+        destruct (Hin1 y Hy1) as [? | ->]; [now left|right; now left].
+  Qed.
+
+  (* equal lists <-> equal ids; the table holds each distinct list once *)
+  Lemma lw_dedup xs t ids :
+    tbl_add_all eqb [] xs = (t, ids) ->
+    NoDup t /\ length ids = length xs /\
+    (forall k x, nth_error xs k = Some x -> exists i, nth_error ids k = Some i /\ nth_error t i = Some x) /\
+    (forall k1 k2 x1 x2 i1 i2, nth_error xs k1 = Some x1 -> nth_error xs k2 = Some x2 ->
+       nth_error ids k1 = Some i1 -> nth_error ids k2 = Some i2 -> (x1 = x2 <-> i1 = i2)) /\
+    (forall y, In y t <-> In y xs).
+  Proof.
+    intros H. destruct (lw_tbl_add_all _ _ _ _ H (NoDup_nil A)) as [Hnd [_ [HF Hin]]].
+    split; [exact Hnd|]. split; [symmetry; eapply lw_forall2_length; eauto|].
+    assert (Hk : forall k x, nth_error xs k = Some x -> exists i, nth_error ids k = Some i /\ nth_error t i = Some x).
+    { intros k x Hx. destruct (lw_forall2_nth _ _ _ _ _ HF Hx) as [i [Hi Ht]]. eauto. }
+    split; [exact Hk|]. split.
+    - intros k1 k2 x1 x2 i1 i2 H1 H2 Hi1 Hi2.
+      destruct (Hk _ _ H1) as [j1 [Hj1 Ht1]]. destruct (Hk _ _ H2) as [j2 [Hj2 Ht2]].
+      assert (j1 = i1) by congruence. assert (j2 = i2) by congruence. subst j1 j2. split.
+      + intros ->. eapply (proj1 (NoDup_nth_error t) Hnd); [apply nth_error_Some; congruence|congruence].
+      + intros ->. congruence.
+    - intros y. split.
+      + intros Hy. destruct (Hin y Hy) as [[]|Hy']; exact Hy'.
+      + intros Hy. apply In_nth_error in Hy. destruct Hy as [k Hkx].
+        destruct (Hk _ _ Hkx) as [i [_ Hti]]. eapply nth_error_In; eauto.
+  Qed.
+End Dedup.
+
+Lemma lw_addr_eqb_spec a b : addr_eqb a b = true <-> a = b.
+Proof.
+  destruct a as [x|s z], b as [y|s' z']; cbn [addr_eqb]; split; intros H; try discriminate.
+  - f_equal; lia. - inversion H; lia. - apply andb_prop in H. destruct H. f_equal; lia.
+  - inversion H; subst. rewrite N.eqb_refl, Z.eqb_refl. reflexivity.
+Qed.
+
+Lemma lw_bytes_eqb_spec : forall a b, bytes_eqb' a b = true <-> a = b.
+Proof.
+  induction a as [|x r IH]; intros [|y s]; cbn [bytes_eqb']; split; intros H; try discriminate; try reflexivity.
+  - apply andb_prop in H. destruct H as [H1 H2]. f_equal; [apply b2n_inj; lia|now apply IH].
+  - inversion H; subst. rewrite N.eqb_refl. cbn [andb]. now apply IH.
+Qed.
+
+Lemma lw_list_eqb_spec {A} (eqb : A -> A -> bool) :
+  (forall x y, eqb x y = true <-> x = y) -> forall a b, list_eqb eqb a b = true <-> a = b.
+Proof.
+  intros He. induction a as [|x r IH]; intros [|y s]; cbn [list_eqb]; split; intros H; try discriminate; try reflexivity.
+  - apply andb_prop in H. destruct H as [H1 H2]. f_equal; [now apply He|now apply IH].
+  - inversion H; subst. apply andb_true_intro. split; [now apply He|now apply IH].
+Qed.
+
+Lemma lw_wloc_eqb_spec x y : wloc_eqb x y = true <-> x = y.
+Proof.
+  destruct x, y; cbn [wloc_eqb]; split; intros H; try discriminate;
+    repeat match goal with
+           | H : _ && _ = true |- _ => apply andb_prop in H; destruct H
+           | H : addr_eqb _ _ = true |- _ => apply lw_addr_eqb_spec in H
+           | H : bytes_eqb' _ _ = true |- _ => apply lw_bytes_eqb_spec in H
+           | H : (_ =? _) = true |- _ => apply N.eqb_eq in H
+           end; subst; try reflexivity;
+    inversion H; subst;
+    repeat (apply andb_true_intro; split);
+    try (apply lw_addr_eqb_spec; reflexivity); try (apply lw_bytes_eqb_spec; reflexivity); try apply N.eqb_refl.
+Qed.
+
+Lemma lw_wrange_eqb_spec x y : wrange_eqb x y = true <-> x = y.
+Proof.
+  destruct x, y; cbn [wrange_eqb]; split; intros H; try discriminate;
+    repeat match goal with
+           | H : _ && _ = true |- _ => apply andb_prop in H; destruct H
+           | H : addr_eqb _ _ = true |- _ => apply lw_addr_eqb_spec in H
+           | H : (_ =? _) = true |- _ => apply N.eqb_eq in H
+           end; subst; try reflexivity;
+    inversion H; subst;
+    repeat (apply andb_true_intro; split);
+    try (apply lw_addr_eqb_spec; reflexivity); try apply N.eqb_refl.
+Qed.
+
+(* ================================================================ Part 5: the unit base address *)
+
+Lemma lw_is_const0 v : is_address_const0 v = true <-> v = VAddress (AConst 0).
+Proof.
+  destruct v as [[[|p]|s z]|u|]; cbn [is_address_const0]; split; intros H; try discriminate; try reflexivity.
+Qed.
+
+(* the writer's flag is false only when the reader's base address is 0 *)
+Lemma lw_base_from_root attrs : have_base_address attrs = false -> unit_base attrs = 0.
+Proof.
+  unfold unit_base, have_base_address.
+  assert (G : forall attrs cur,
+    (cur = None \/ cur = Some (VAddress (AConst 0))) ->
+    existsb (fun p => (fst p =? DW_AT_low_pc) && negb (is_address_const0 (snd p))) attrs = false ->
+    last_low_pc cur attrs = None \/ last_low_pc cur attrs = Some (VAddress (AConst 0))).
+  { induction attrs0 as [|[n v] r IH]; intros cur Hc H; cbn [last_low_pc existsb fst snd] in *; [exact Hc|].
+    apply orb_false_elim in H. destruct H as [H1 H2].
+    apply IH; [|exact H2]. destruct (n =? DW_AT_low_pc); [|exact Hc].
+    cbn [andb] in H1. right. f_equal. apply lw_is_const0. destruct (is_address_const0 v); [reflexivity|discriminate]. }
+  intros H. destruct (G attrs None (or_introl eq_refl) H) as [-> | ->]; reflexivity.
+Qed.
+
+Lemma lw_have_base_iff attrs :
+  have_base_address attrs = true <->
+  exists v, In (DW_AT_low_pc, v) attrs /\ v <> VAddress (AConst 0).
+Proof.
+  unfold have_base_address. rewrite existsb_exists. split.
+  - intros [[n v] [Hin H]]. cbn [fst snd] in H. apply andb_prop in H. destruct H as [Hn Hv].
+    assert (n = DW_AT_low_pc) by lia; subst n. exists v. split; [exact Hin|].
+    intros Hc. apply lw_is_const0 in Hc. rewrite Hc in Hv. discriminate.
+  - intros [v [Hin Hv]]. exists (DW_AT_low_pc, v). split; [exact Hin|]. cbn [fst snd].
+    rewrite N.eqb_refl. cbn [andb]. destruct (is_address_const0 v) eqn:E; [|reflexivity].
+    apply lw_is_const0 in E. contradiction.
+Qed.
